@@ -769,7 +769,7 @@ func c20Worker(args []string) {
 func runC20(c *vf.Ctx) {
 	thorough := c.Tier == "thorough"
 	if thorough {
-		c.SetBudget(30 * 60 * 1e9)
+		c.SetBudget(50 * 60 * 1e9)
 	} else {
 		c.SetBudget(6 * 60 * 1e9)
 	}
@@ -825,7 +825,7 @@ func runC20(c *vf.Ctx) {
 			}
 		}
 	}
-	c.Rule = "stateless exploration of the real code under a cooperative scheduler (internal/sched): bodies = {DecodeFileSR->Info->EncodeSW, DecodeFile->Encode, DecodeFile->InitProtect/EncryptFragment->Encode, DecodeFile->DecryptInit/DecryptSegment->Encode, Annex B conversion + SPS/PPS/slice/SEI/ADTS parsing, DecodeFileSR(own copy)->decrypt cbcs, DecodeFileSR(shared bytes)->decrypt}, each on its own objects over the same shared input bytes. Scheduling points: every method call on the yielding io.ReadSeeker / io.Writer / bits.SliceReader / bits.SliceWriter wrappers and every API-call boundary. Explored: every pair of bodies (incl. a body with itself) with all interleavings at call granularity (unbounded) and all schedules with <= 1 (thorough: 2) pre-emptions at I/O granularity; triples at call granularity with <= 2 pre-emptions. Oracle on every schedule: each body's observations (output bytes, Info text, parsed structures, errors) equal its solo run, SHA-1 of all shared inputs unchanged, deep fingerprint of every package-level variable of mp4/avc/hevc/bits/sei/aac/av1 (generated accessors) unchanged. Separate free-running pass: the same bodies in 16 goroutines under the race detector."
+	c.Rule = "stateless exploration of the real code under a cooperative scheduler (internal/sched): bodies = {DecodeFileSR->Info->EncodeSW, DecodeFile->Encode, DecodeFile->InitProtect/EncryptFragment->Encode, DecodeFile->DecryptInit/DecryptSegment->Encode, Annex B conversion + SPS/PPS/slice/SEI/ADTS parsing, DecodeFileSR(own copy)->decrypt cbcs, DecodeFile(*bytes.Buffer over the shared bytes, 64-bit mdat headers)->encrypt / ->decrypt, DecodeFileSR(shared bytes)->decrypt}, each on its own objects over the same shared input bytes. Scheduling points: every method call on the yielding io.ReadSeeker / io.Writer / bits.SliceReader / bits.SliceWriter wrappers and every API-call boundary. Explored: every pair of bodies (incl. a body with itself) with all interleavings at call granularity (unbounded) and all schedules with <= 1 (thorough: 2) pre-emptions at I/O granularity; triples at call granularity with <= 2 pre-emptions. Oracle on every schedule: each body's observations (output bytes, Info text, parsed structures, errors) equal its solo run, SHA-1 of all shared inputs unchanged, deep fingerprint of every package-level variable of mp4/avc/hevc/bits/sei/aac/av1 (generated accessors) unchanged. Separate free-running pass: the same bodies in 16 goroutines under the race detector."
 	c.Bound = fmt.Sprintf("%d combinations; pre-emption bound %d at I/O granularity", len(combos), fineBound)
 	var mu sync.Mutex
 	var total int64
